@@ -204,11 +204,17 @@ def check(ctx):
     mark = repo.fn(f"{LOD}._mark_obsolete")
     cfg = cfg_of(mark)
 
+    def _is_self_alias(name_node, at):
+        """a local that holds the receiver at ``at``: its only reaching definition is `<name> = self`"""
+        ds = _dr0(mark, name_node.id, at)
+        return len(ds) == 1 and ds[0].value is not None and norm(ds[0].value) == mark.params[0]
+
     def is_set_true(n):
         a = n.ast
         return (n.kind == "stmt" and isinstance(a, ast.Assign) and len(a.targets) == 1
                 and isinstance(a.targets[0], ast.Attribute) and a.targets[0].attr == "_obsolete"
-                and isinstance(a.targets[0].value, ast.Name) and a.targets[0].value.id == mark.params[0]
+                and isinstance(a.targets[0].value, ast.Name)
+                and (a.targets[0].value.id == mark.params[0] or _is_self_alias(a.targets[0].value, a))
                 and isinstance(a.value, ast.Constant) and a.value.value is True)
     p = cfg.path_avoiding(is_set_true)
     ctx.ob("EFF-2", mark, "self._obsolete = True on every path", mark.node, p is None,
@@ -219,6 +225,23 @@ def check(ctx):
     ok = False
     why = "no recursive call self._predecessor._mark_obsolete()"
     from ..forms import expand as _expand17
+    loops_m = [n for n in body_nodes(mark.node) if isinstance(n, ast.While)]
+    if not rec and loops_m:
+        # iterative walk: cur = self; cur._obsolete = True; while isinstance(cur._predecessor, ListOfDicts): cur = cur._predecessor;
+        # cur._obsolete = True -- the same marking without recursion.  Recognised in exactly this shape (link tested with
+        # isinstance / `is not None`, never by truthiness; advance, then mark); any other loop is not judged.
+        lw = loops_m[0]
+        tests_ok = [c for c in ast.walk(lw.test) if (isinstance(c, ast.Call) and norm(c.func) == "isinstance" and len(c.args) == 2
+                                                      and norm(c.args[0]).endswith("._predecessor"))
+                    or (isinstance(c, ast.Compare) and norm(c.left).endswith("._predecessor") and isinstance(c.ops[0], ast.IsNot))]
+        cur = norm(tests_ok[0].args[0] if isinstance(tests_ok[0], ast.Call) else tests_ok[0].left)[:-len("._predecessor")] if tests_ok else None
+        body_txt = [norm(b_) for b_ in lw.body]
+        shape = cur is not None and cur.isidentifier() and len(lw.body) == 2 and body_txt == [f"{cur} = {cur}._predecessor", f"{cur}._obsolete = True"] \
+            and not lw.orelse and (norm(lw.test) == norm(tests_ok[0]))
+        if not shape:
+            raise AnalysisError(f"{mark.qualname}: the predecessor chain is walked by a loop this rule does not read ({norm(lw.test)[:60]})")
+        ok = True
+        why = f"the chain is walked iteratively: every predecessor reached through {cur}._predecessor is marked, the link tested with {norm(lw.test)[:50]}"
     for c in rec:
         recv0 = c.func.value
         recv = _expand17(mark, recv0, c)
@@ -362,10 +385,12 @@ def check(ctx):
                     return None
                 out = out and (v if k == "T" else not v)
             return out
-        must_exempt = ["_obsolete", "_obsolete_warned"]
+        # the marking method is looked up on every predecessor each time a successor edits: that lookup is not the user's
+        # "next use" -- were it to warn, the warning would be spent (and the flag set) before the user touches the list
+        must_exempt = ["_obsolete", "_obsolete_warned", mark.name]
         handed_on = sorted({c.func.attr for m_ in cls.methods.values() for _, c in calls_in(m_)
                             if isinstance(c.func, ast.Attribute) and isinstance(c.func.value, ast.Name) and m_.params
-                            and c.func.value.id == m_.params[0] and c.func.attr in cls.methods})
+                            and c.func.value.id == m_.params[0] and c.func.attr in cls.methods} - {mark.name})
         public = sorted(n_ for n_ in cls.methods if not n_.startswith("_"))
         vals = {n_: warns(n_) for n_ in must_exempt + handed_on + public}
         if any(v is None for v in vals.values()):
@@ -379,7 +404,9 @@ def check(ctx):
                "every public method triggers it" if ok else
                (f"lookups of {bad_w[:6]} no longer trigger the warning: slicing, +, * and copy reach Python-level attribute lookup only "
                 f"through self._new, so an obsolete list used that way hands its edited items on silently" if bad_w else
-                f"the guard reads {bad_ex} through __getattribute__ itself without exempting them"),
+                f"{bad_ex} are looked up by the bookkeeping itself (the guard's own flag reads; {mark.name} on every predecessor whenever a "
+                f"successor edits) without being exempt: an already obsolete list prints its one warning during a later edit of a "
+                f"successor, and its real next use is silent"),
                clause="print the warning exactly once on their next use")
     # obsolete methods themselves must stay silent ('obsolete' not in name)
     init = repo.fn(f"{LOD}.__init__")
